@@ -10,6 +10,7 @@ pub mod c08;
 pub mod c14;
 pub mod c17;
 pub mod c16;
+pub mod c19;
 pub mod tzchild;
 
 pub const ALL: &[&str] = &["C01", "C02", "C03", "C04", "C05", "C07", "C16", "C08"];
@@ -24,6 +25,7 @@ pub fn run(ctx: &Ctx) -> Option<Outcome> {
         "C07" => Some(c07::run(ctx)),
         "C16" => Some(c16::run(ctx)),
         "C17" => Some(c17::run(ctx)),
+        "C19" => Some(c19::run(ctx)),
         "C14" => Some(c14::run(ctx)),
         "C08" => Some(c08::run(ctx)),
         _ => None,
